@@ -15,6 +15,7 @@ import (
 	"github.com/whatap/golib/util/hmap"
 	"github.com/whatap/golib/util/list"
 	"github.com/whatap/golib/util/queue"
+	"github.com/whatap/golib/util/stringutil"
 )
 
 // HK is the harness's LinkedKey with a scripted hash.
@@ -42,13 +43,14 @@ type Ctor struct {
 }
 
 type Desc struct {
-	Name    string
-	Ctors   []Ctor
-	KeyT    reflect.Type // nil for list/queue
-	ValT    reflect.Type // nil for sets
-	Linked  bool         // insertion ordered
-	Family  string       // "linkedmap","linkedset","map","set","list","queue","dqueue"
-	NullKey bool         // "" is refused as a key
+	Name     string
+	Ctors    []Ctor
+	KeyT     reflect.Type // nil for list/queue
+	ValT     reflect.Type // nil for sets
+	Linked   bool         // insertion ordered
+	Family   string       // "linkedmap","linkedset","map","set","list","queue","dqueue"
+	NullKey  bool         // "" is refused as a key
+	HashCode bool         // string keys are hashed with stringutil.HashCode instead of CRC-32
 }
 
 func (d *Desc) New() interface{} { return d.Ctors[0].New() }
@@ -98,7 +100,7 @@ var Descs = []*Desc{
 		Ctors: []Ctor{{"NewLinkedSet", func() interface{} { return hmap.NewLinkedSet() }}}},
 	{Name: "IntLinkedSet", KeyT: i32T, Linked: true, Family: "linkedset",
 		Ctors: []Ctor{{"NewIntLinkedSet", func() interface{} { return hmap.NewIntLinkedSet() }}}},
-	{Name: "StringLinkedSet", KeyT: strT, Linked: true, Family: "linkedset", NullKey: true,
+	{Name: "StringLinkedSet", KeyT: strT, Linked: true, Family: "linkedset", NullKey: true, HashCode: true,
 		Ctors: []Ctor{{"NewStringLinkedSet", func() interface{} { return hmap.NewStringLinkedSet() }}}},
 	{Name: "IntIntMap", KeyT: i32T, ValT: i32T, Family: "map",
 		Ctors: capLoadCtors("NewIntIntMap", func(c int, lf float32) interface{} { return hmap.NewIntIntMap(c, lf) }, func() interface{} { return hmap.NewIntIntMapDefault() })},
@@ -129,31 +131,39 @@ func DescByName(n string) *Desc {
 
 const collide = 101 * 203 // same bucket in the 101- and the 203-bucket table
 
-var strKeys []string
+var strKeys = map[bool][]string{}
 
-// StringKeys returns n distinct non-empty strings whose CRC hash lands in the same bucket of both
-// the 101- and the 203-bucket table (found by search with the public hash function).
-func StringKeys(n int) []string {
-	if len(strKeys) >= n {
-		return strKeys[:n]
+// StringKeys returns n distinct non-empty strings that the type's string hash (CRC-32, or the
+// Java-style hash code StringLinkedSet uses) puts into bucket 0 of both the 101- and the
+// 203-bucket table: they collide before and after the first growth, and a scan that skips the
+// first or the last bucket cannot get away with it.
+func StringKeys(hashCode bool, n int) []string {
+	if len(strKeys[hashCode]) >= n {
+		return strKeys[hashCode][:n]
 	}
-	base := uint(uint32(hash.HashStr("k0")))
-	strKeys = []string{"k0"}
-	for i := 1; len(strKeys) < 8; i++ {
+	var ks []string
+	for i := 1; len(ks) < 6; i++ {
 		s := fmt.Sprintf("k%d", i)
-		h := uint(uint32(hash.HashStr(s)))
-		if h%101 == base%101 && h%203 == base%203 {
-			strKeys = append(strKeys, s)
+		var h uint
+		if hashCode {
+			h = uint(stringutil.HashCode(s))
+		} else {
+			h = uint(hash.HashStr(s))
 		}
-		if i > 50_000_000 {
+		if h%101 == 0 && h%203 == 0 {
+			ks = append(ks, s)
+		}
+		if i > 200_000_000 {
 			panic("no colliding strings")
 		}
 	}
-	return strKeys[:n]
+	strKeys[hashCode] = ks
+	return ks[:n]
 }
 
 // Keys returns the key alphabet of the given size for a key type: colliding keys first.
-func Keys(t reflect.Type, n int) []reflect.Value {
+func Keys(d *Desc, n int) []reflect.Value {
+	t := d.KeyT
 	var out []reflect.Value
 	switch t {
 	case i32T:
@@ -165,7 +175,7 @@ func Keys(t reflect.Type, n int) []reflect.Value {
 			out = append(out, reflect.ValueOf(k))
 		}
 	case strT:
-		ks := StringKeys(4)
+		ks := StringKeys(d.HashCode, 4)
 		for _, k := range []string{ks[0], ks[1], "", ks[2], "zz-other", ks[3]} {
 			out = append(out, reflect.ValueOf(k))
 		}
@@ -184,7 +194,8 @@ func Keys(t reflect.Type, n int) []reflect.Value {
 
 // KeysNZ returns n colliding keys none of which is the type's zero value (so that the zero key of a
 // header sentinel can never be confused with a stored key).
-func KeysNZ(t reflect.Type, n int) []reflect.Value {
+func KeysNZ(d *Desc, n int) []reflect.Value {
+	t := d.KeyT
 	var out []reflect.Value
 	switch t {
 	case i32T:
@@ -196,7 +207,7 @@ func KeysNZ(t reflect.Type, n int) []reflect.Value {
 			out = append(out, reflect.ValueOf(k))
 		}
 	case strT:
-		for _, k := range StringKeys(4) {
+		for _, k := range StringKeys(d.HashCode, 4) {
 			out = append(out, reflect.ValueOf(k))
 		}
 	case linkedKeyT:
@@ -429,7 +440,12 @@ func ArgSets(d *Desc, obj interface{}, m reflect.Method, nk, nv int) [][]reflect
 			c = []reflect.Value{reflect.ValueOf(io.NewDataInputX([]byte{0}))}
 		case pt.Kind() == reflect.Ptr && pt == reflect.TypeOf(obj):
 			other := d.New()
-			c = []reflect.Value{reflect.ValueOf(other)}
+			if d.ValT != nil {
+				ks := Keys(d, 2)
+				Apply(other, MkOp("Put", ks[1], Vals(d.ValT, 3)[2]))
+				Apply(other, MkOp("Put", reflect.ValueOf(int32(7)).Convert(d.KeyT), Vals(d.ValT, 2)[1]))
+			}
+			c = []reflect.Value{reflect.ValueOf(other), reflect.ValueOf(d.New())}
 		case pt.Kind() == reflect.Ptr && pt.Elem().Name() == "LinkedListEntity":
 			return nil // node-taking methods are driven by the list-specific harness
 		case pt.Kind() == reflect.Slice && pt.Elem() == i32T:
@@ -437,7 +453,7 @@ func ArgSets(d *Desc, obj interface{}, m reflect.Method, nk, nv int) [][]reflect
 		case pt.Kind() == reflect.Slice && pt.Elem() == strT:
 			c = []reflect.Value{reflect.ValueOf([]string{"k0", "x"}), reflect.ValueOf([]string(nil))}
 		case d.KeyT != nil && i == 0 && pt == d.KeyT && !strings.Contains(lname, "value") && !(d.Family == "queue" || d.Family == "dqueue"):
-			c = KeyGen(d.KeyT, nk)
+			c = KeyGen(d, nk)
 		case d.ValT != nil && pt == d.ValT:
 			c = Vals(d.ValT, nv)
 		case pt == intT:
